@@ -54,10 +54,10 @@ def targets_of(root: str) -> List[Tuple[str, str]]:
     return out
 
 
-def call(root: str, api: str, opts: Dict[str, Any]) -> Any:
+def call(root: str, api: str, opts: Dict[str, Any], handle: Any = None) -> Any:
     import datashard as ds
 
-    t = ds.load_table(root)
+    t = handle if handle is not None else ds.load_table(root)
     if api == "scan":
         return reader.canon_rows(t.scan(**opts))
     if api == "scan_filter":
@@ -130,9 +130,12 @@ class C14(Check):
             with Scratch("c14") as d:
                 root = str(d / "t")
                 build_table(root)
+                import datashard as ds
                 baseline = {}
+                warm = ds.load_table(root)          # a handle that has already read everything successfully
                 for api, opts in APIS:
                     baseline[(api, repr(opts))] = call(root, api, opts)
+                    call(root, api, opts, warm)
                 tg = dict(targets_of(root))
                 kind = case["target"]
                 rel = tg[kind]
@@ -164,8 +167,10 @@ class C14(Check):
                 # independent view after the damage
                 indep = self._independent(root, baseline)
                 fkind = kind.split("#")[0]
-                for api, opts in APIS:
+                for (api, opts), hmode in [(ao, hm) for hm in ("fresh", "warm") for ao in APIS]:
                     key = (api, repr(opts))
+                    if hmode == "warm" and dmg == "transient":
+                        continue
                     if dmg == "transient":
                         state = {"fired": 0}
 
@@ -181,7 +186,7 @@ class C14(Check):
                         ip.before.append(hook)
                     try:
                         try:
-                            got = ("ok", call(root, api, opts))
+                            got = ("ok", call(root, api, opts, warm if hmode == "warm" else None))
                         except Exception as e:  # noqa
                             got = ("raise", type(e).__name__)
                     finally:
@@ -195,7 +200,7 @@ class C14(Check):
                         res.count("transient_injected")
                     base = baseline[key]
                     verify_on = opts.get("verify_checksums", True) and api != "row_count"
-                    wit = {"target": kind, "file": rel, "damage": dmg, "arg": case["arg"], "api": api,
+                    wit = {"target": kind, "file": rel, "damage": dmg, "arg": case["arg"], "api": api, "handle": hmode,
                            "options": opts, "outcome": got[0],
                            "result": (got[1] if got[0] == "raise" else (got[1] if isinstance(got[1], int) else len(got[1]))),
                            "undamaged": base if isinstance(base, int) else len(base), "independent_reader": indep}
@@ -210,8 +215,8 @@ class C14(Check):
                     # returned something
                     if fkind == "data" and verify_on and bytes_changed and api not in ("row_count",):
                         res.count("judged")
-                        res.violation(f"checksum-miss:{dmg}:{api}",
-                                      f"data file bytes changed ({dmg}) but {api}{opts} with verification on returned rows", wit)
+                        res.violation(f"checksum-miss:{dmg}:{api}:{hmode}-handle",
+                                      f"data file bytes changed ({dmg}) but {api}{opts} with verification on returned rows ({hmode} handle)", wit)
                         continue
                     if got[1] == base:
                         res.count("judged")
@@ -226,7 +231,7 @@ class C14(Check):
                         continue
                     res.count("judged")
                     res.violation(f"wrong-answer:{fkind}:{dmg}",
-                                  f"{api}{opts} returned {wit['result']} (undamaged {wit['undamaged']}) after {dmg} of {kind}", wit)
+                                  f"[{hmode} handle] {api}{opts} returned {wit['result']} (undamaged {wit['undamaged']}) after {dmg} of {kind}", wit)
                 if len(res.samples) < 1:
                     res.sample({"file": rel, "kind": kind, "damage": dmg, "arg": case["arg"],
                                 "independent_reader": indep, "apis_run": len(APIS)})
